@@ -4,6 +4,36 @@
 //! (`Dialog::new_server` / `Acceptor`, `ClientDialogBuilder` / `Initiator`), every request created
 //! inside the dialog is sent and read back from the mock wire with the independent reader, and compared
 //! with `refmodel::ref_dialog`, which builds the dialog from the *texts* of request and response.
+//!
+//! Generated (sub `uas`, `uac`): the dialog shape (0..4 Record-Route values on one or several lines, tags,
+//! Contact / From / To forms), the way through the API (bare dialog + transaction, or Acceptor / Initiator +
+//! Session), 1..10 created requests (optionally from 4 OS threads), Session::terminate, the session-refresh
+//! re-INVITE + ACK, and - UAC only - the HISTORY of the builder before and besides the dialog:
+//!   * `prior`: 0..3 earlier attempts of the INVITE through the same `Initiator` / `ClientDialogBuilder`, each
+//!     rejected by the peer (401/407/422/3xx/any 300..699; with or without To-tag, also the very tag of the
+//!     later 2xx; optionally after 100/18x, the 18x optionally creating an early dialog that dies with the
+//!     rejection).  The application then creates and sends the INVITE again like `examples/send_invite.rs`
+//!     does, optionally adding a credentials header and - `ClientDialogBuilder` only, through its pub field
+//!     `local_cseq` - raising the CSeq for the repetition.  The dialog is created by the LAST attempt: the
+//!     reference dialog is built from the text of the INVITE the peer's 2xx answers, and the CSeq floor of
+//!     the dialog is that INVITE's number as read from the wire, whatever the earlier attempts carried.
+//!   * `fork`: a second 2xx for the same INVITE with another To-tag, Contact and Record-Route list: a second
+//!     dialog out of the same builder and transaction, with 1..3 requests of its own, judged against a second
+//!     reference dialog (same request text, the second response text) with a CSeq space of its own.
+//! Sub `uas-codes` enumerates every status code through `create_response`.
+//!
+//! Oracle: `RefDialog::check_request` (Call-ID, From/To URI + tag, Request-URI, Route, Max-Forwards) per created
+//! request, `CSeqTracker` over the requests of one dialog in creation order (per thread for the threaded block),
+//! `ref_dialog::check_response` per response of the UAS.  A failure found in both dialogs of a fork is reported
+//! once; one found only in the second dialog gets `uac-fork-` in its signature.  A first request that is not
+//! above the creating INVITE is named `first-not-above-renumbered-invite` when an earlier attempt of that INVITE
+//! carried another number (the counter evidently did not follow the repetition), `first-not-above-invite` otherwise.
+//!
+//! Not asserted: anything about the INVITE attempts themselves (whether a repetition gets a new CSeq, keeps
+//! Call-ID / From-tag, what happens to the early dialogs of a rejected attempt), the ACKs the transaction layer
+//! sends for the rejections (they share the INVITE's branch and are not "created inside a dialog"), any relation
+//! between the CSeq numbers of the two dialogs of a fork, display names, the Contact of created requests, the
+//! strict-routing rewrite (both forms accepted), requests inside unconfirmed early dialogs (C13).
 
 use super::c06::ChannelLayer;
 use crate::engine::*;
@@ -16,7 +46,7 @@ use sip_core::transport::TargetTransportInfo;
 use sip_core::{Endpoint, Request};
 use sip_types::header::typed::Contact;
 use sip_types::uri::NameAddr;
-use sip_types::{Code, Method};
+use sip_types::{Code, Method, Name};
 use sip_ua::dialog::{ClientDialogBuilder, Dialog, DialogLayer};
 use sip_ua::invite::acceptor::Acceptor;
 use sip_ua::invite::initiator::{Initiator, Response as IniResponse};
@@ -106,8 +136,49 @@ pub struct UacCase {
     /// `Some((session_expires, before_ops))`: peer asks for a UAC-refreshed session timer; the refresh
     /// re-INVITE of `RefreshNeeded::process_default` and its ACK are observed (initiator only)
     pub refresh: Option<(u32, bool)>,
+    /// history of the builder BEFORE the dialog-creating INVITE: earlier INVITE attempts through the same
+    /// `Initiator` / `ClientDialogBuilder`, each ended by a failure response of the peer, oldest first
+    #[serde(default)]
+    pub prior: Vec<Attempt>,
+    /// a second 2xx for the same INVITE from another branch of a forking proxy (other To-tag, Contact and
+    /// Record-Route): a second dialog out of the same builder, with requests of its own
+    #[serde(default)]
+    pub fork: Option<Fork>,
     pub ops: Ops,
     pub rng: u8,
+}
+
+/// one INVITE attempt that the peer rejected (the application then repeats the INVITE, as
+/// `examples/send_invite.rs` does after a 401)
+#[derive(Serialize, Deserialize, Clone, Debug, Hash)]
+pub struct Attempt {
+    /// provisional responses of the peer before the failure
+    pub provisionals: Vec<u16>,
+    /// the ones above 100 carry a To-tag, a Contact and a Record-Route: an early dialog that dies with the failure
+    pub early: bool,
+    /// the failure (300..=699)
+    pub code: u16,
+    /// To-tag of the failure response (and of the early dialog); `None`: the peer sets none
+    pub to_tag: Option<String>,
+    /// `to_tag` is the tag the peer later puts into the 2xx
+    #[serde(default)]
+    pub same_tag: bool,
+    /// the application adds a credentials header to the INVITE it creates next
+    pub edit: bool,
+    /// `ClientDialogBuilder` only: the application raises the pub field `local_cseq` by this much before it
+    /// creates the next INVITE (the only way the API offers to repeat a request with a new CSeq, RFC 3261 22.2)
+    pub bump: u8,
+}
+
+#[derive(Serialize, Deserialize, Clone, Debug, Hash)]
+pub struct Fork {
+    pub code: u16,
+    /// differs from the To-tag of the first 2xx by construction
+    pub to_tag: String,
+    pub peer_contact: String,
+    pub rr: Vec<String>,
+    /// requests created in the second dialog (indices into METHODS), 1..=3, after everything else
+    pub methods: Vec<u8>,
 }
 
 // ------------------------------------------------------------------------------------------
@@ -445,11 +516,71 @@ const TARGETS_DIRECT: &[&str] = &[
 /// through the Initiator the endpoint selects the transport itself: IP literals only (no DNS in the world)
 const TARGETS_INITIATOR: &[&str] = &["sip:bob@192.0.2.9", "sip:192.0.2.9:5060", "sip:bob@192.0.2.9;transport=udp"];
 
+/// 0..=3 rejected INVITE attempts before the one that creates the dialog (half of the cases have none)
+fn g_prior() -> BoxedStrategy<Vec<Attempt>> {
+    let attempt = (
+        prop::collection::vec(prop_oneof![Just(100u16), Just(180u16), Just(183u16)], 0..=2),
+        prop_oneof![2 => Just(false), 1 => Just(true)],
+        prop_oneof![
+            3 => Just(401u16),
+            2 => Just(407u16),
+            2 => Just(422u16),
+            1 => Just(302u16),
+            1 => prop_oneof![Just(486u16), Just(480u16), Just(503u16), Just(491u16)],
+            2 => 300u16..700,
+        ],
+        prop_oneof![
+            5 => g_tag().prop_map(|t| (Some(t), false)),
+            1 => Just((None, false)),
+            1 => Just((None, true)),
+        ],
+        any::<bool>(),
+        prop_oneof![3 => Just(0u8), 2 => Just(1u8), 1 => 2u8..=3],
+    )
+        .prop_map(|(provisionals, early, code, (to_tag, same_tag), edit, bump)| Attempt {
+            provisionals,
+            early,
+            code,
+            to_tag,
+            same_tag,
+            edit,
+            bump,
+        });
+    let count = prop_oneof![10 => Just(0usize), 6 => Just(1usize), 2 => Just(2usize), 2 => Just(3usize)];
+    (count, prop::collection::vec(attempt, 3))
+        .prop_map(|(n, mut v)| {
+            v.truncate(n);
+            v
+        })
+        .boxed()
+}
+
+fn g_fork() -> BoxedStrategy<Option<Fork>> {
+    prop_oneof![
+        3 => Just(None),
+        1 => (
+            prop_oneof![4 => Just(200u16), 1 => 200u16..300],
+            g_tag(),
+            g_contact_wire(),
+            g_rr(),
+            prop::collection::vec(0u8..METHODS.len() as u8, 1..=3),
+        )
+            .prop_map(|(code, to_tag, peer_contact, rr, methods)| Some(Fork {
+                code,
+                to_tag,
+                peer_contact,
+                rr,
+                methods,
+            })),
+    ]
+    .boxed()
+}
+
 pub fn uac_strategy() -> BoxedStrategy<UacCase> {
     (
         (g_display_api(), g_fromto_uri(false)),
         g_local_contact(),
-        any::<u16>(),
+        (any::<u16>(), g_prior(), g_fork()),
         (
             prop::collection::vec(prop_oneof![Just(100u16), Just(180u16), Just(183u16)], 0..=2),
             prop_oneof![4 => Just(200u16), 1 => 200u16..300],
@@ -463,7 +594,26 @@ pub fn uac_strategy() -> BoxedStrategy<UacCase> {
         any::<u8>(),
     )
         .prop_map(
-            |((ld, lu), (lcd, lcu), tsel, (peer_provisionals, code, to_tag, peer_contact), (rr, rr_layout), initiator, refresh, ops, rng)| {
+            |((ld, lu), (lcd, lcu), (tsel, mut prior, mut fork), (peer_provisionals, code, to_tag, peer_contact), (rr, rr_layout), initiator, refresh, ops, rng)| {
+                // the second branch of a fork is another UAS: its tag differs from the first one's
+                if let Some(f) = fork.as_mut() {
+                    if f.to_tag == to_tag {
+                        f.to_tag.push_str("-b2");
+                    }
+                }
+                // a peer that uses one To-tag for the rejection and for the later 2xx (a stateless UAS derives its
+                // tag from Call-ID and From-tag, RFC 3261 8.2.6.2)
+                for a in prior.iter_mut() {
+                    if a.same_tag {
+                        a.to_tag = Some(to_tag.clone());
+                    }
+                }
+                if initiator {
+                    // the Initiator owns its builder: nothing to bump
+                    for a in prior.iter_mut() {
+                        a.bump = 0;
+                    }
+                }
                 let target = if initiator {
                     TARGETS_INITIATOR[pick_idx(tsel, TARGETS_INITIATOR.len())]
                 } else {
@@ -483,6 +633,8 @@ pub fn uac_strategy() -> BoxedStrategy<UacCase> {
                     rr_layout,
                     initiator,
                     refresh: if initiator { refresh } else { None },
+                    prior,
+                    fork,
                     ops,
                     rng,
                 }
@@ -593,6 +745,13 @@ pub struct Observed {
     pub refresh_after: Option<usize>,
     /// CSeq of a request created while the refresh re-INVITE was pending, and of one created after its ACK
     pub refresh_cseq_probe: Option<(u32, u32)>,
+    /// UAC: the INVITE the peer answered with the dialog-creating 2xx (the last of `1 + prior.len()` attempts)
+    pub creating_invite: Option<WireMsg>,
+    /// UAC fork: the second 2xx, position (among the distinct requests after the INVITE attempts) of the first
+    /// request created in the second dialog, and how many were created there
+    pub fork_response: Option<WireMsg>,
+    pub fork_start: Option<usize>,
+    pub fork_sent: usize,
     pub harness: Vec<String>,
 }
 
@@ -718,6 +877,10 @@ pub fn run_uas(case: &UasCase) -> Observed {
             terminate_sent: false,
             refresh_after: None,
             refresh_cseq_probe: None,
+            creating_invite: None,
+            fork_response: None,
+            fork_start: None,
+            fork_sent: 0,
             harness: vec![],
         };
         let mut keep: Vec<Box<dyn Any>> = vec![];
@@ -868,6 +1031,28 @@ pub fn run_uas(case: &UasCase) -> Observed {
     })
 }
 
+/// header the application adds to a repeated INVITE
+const CREDENTIALS: &str = "Digest username=\"alice\", realm=\"c11\", nonce=\"n0\", uri=\"sip:bob@192.0.2.9\", response=\"00000000000000000000000000000000\"";
+
+/// what a rejecting peer adds to its failure response
+fn failure_extra(code: u16) -> Vec<String> {
+    match code {
+        401 => vec!["WWW-Authenticate: Digest realm=\"c11\", nonce=\"n0\"".to_string()],
+        407 => vec!["Proxy-Authenticate: Digest realm=\"c11\", nonce=\"n0\"".to_string()],
+        422 => vec!["Min-SE: 1800".to_string()],
+        300..=399 => vec!["Contact: <sip:bob@192.0.2.77:5062>".to_string()],
+        _ => vec![],
+    }
+}
+
+/// Contact and Record-Route of a provisional response that creates an early dialog which never gets confirmed
+fn early_extra() -> Vec<String> {
+    vec![
+        "Contact: <sip:early-only@192.0.2.250:5999>".to_string(),
+        "Record-Route: <sip:early-only-proxy.example.com;lr>".to_string(),
+    ]
+}
+
 /// keeps a value alive in the `keep` list
 struct SendBox<T>(#[allow(dead_code)] T);
 
@@ -891,6 +1076,10 @@ pub fn run_uac(case: &UacCase) -> Observed {
             terminate_sent: false,
             refresh_after: None,
             refresh_cseq_probe: None,
+            creating_invite: None,
+            fork_response: None,
+            fork_start: None,
+            fork_sent: 0,
             harness: vec![],
         };
         let mut keep: Vec<Box<dyn Any>> = vec![];
@@ -918,87 +1107,262 @@ pub fn run_uac(case: &UacCase) -> Observed {
             extra.push(format!("Session-Expires: {se};refresher=uac"));
         }
 
-        let first_invite = |log: &WireLog| -> Option<WireMsg> {
-            log.parsed().into_iter().filter_map(|(_, m)| m).find(|m| m.method() == Some("INVITE"))
+        // the newest INVITE on the wire (retransmissions are copies) and the number of distinct requests
+        let last_invite = |log: &WireLog| -> Option<WireMsg> {
+            log.parsed().into_iter().filter_map(|(_, m)| m).filter(|m| m.method() == Some("INVITE")).last()
+        };
+        let count_requests = |log: &WireLog| -> usize {
+            let mut seen = HashSet::new();
+            log.parsed()
+                .into_iter()
+                .filter_map(|(_, m)| m)
+                .filter(|m| m.is_request())
+                .filter(|m| seen.insert(m.via_branch()))
+                .count()
+        };
+        let n_invites = case.prior.len() + 1;
+        // what the second branch of a forking proxy answers with
+        let fork_bytes = |invite_wire: &WireMsg| -> Option<Vec<u8>> {
+            case.fork.as_ref().map(|f| {
+                let mut extra = vec![format!("Contact: {}", f.peer_contact)];
+                extra.extend(rr_lines(&f.rr, 0, "Record-Route"));
+                response_text(invite_wire, f.code, Some(&f.to_tag), &extra)
+            })
         };
 
         if !case.initiator {
             let mut cb = ClientDialogBuilder::new(endpoint.clone(), dialog_layer, local_addr, local_contact, target);
             cb.target_tp_info.transport = Some((tp.clone(), peer));
-            let invite = cb.create_request(Method::INVITE);
-            let mut tsx = match endpoint.send_invite(invite, &mut cb.target_tp_info).await {
-                Ok(t) => t,
-                Err(e) => {
-                    obs.harness.push(format!("send_invite: {e}"));
-                    return obs;
+            let mut prev: Option<&Attempt> = None;
+            let mut attempts: Vec<Option<&Attempt>> = case.prior.iter().map(Some).collect();
+            attempts.push(None);
+            for att in attempts {
+                // the application repeats the INVITE: optionally with a new CSeq (through the pub field, the
+                // only handle the builder offers) and with credentials
+                if let Some(p) = prev {
+                    cb.local_cseq += p.bump as u32;
                 }
-            };
-            settle().await;
-            let Some(invite_wire) = first_invite(&log) else {
-                obs.harness.push("INVITE not on the wire".into());
-                return obs;
-            };
-            let mut final_resp = None;
-            let mut codes: Vec<u16> = case.peer_provisionals.clone();
-            codes.push(case.code);
-            for code in codes {
-                let bytes = if code >= 200 {
-                    response_text(&invite_wire, code, Some(&case.to_tag), &extra)
-                } else {
-                    response_text(&invite_wire, code, None, &[])
+                let mut invite = cb.create_request(Method::INVITE);
+                if prev.map_or(false, |p| p.edit) {
+                    invite.headers.insert(Name::AUTHORIZATION, CREDENTIALS);
+                }
+                let before = count_requests(&log);
+                let mut tsx = match endpoint.send_invite(invite, &mut cb.target_tp_info).await {
+                    Ok(t) => t,
+                    Err(e) => {
+                        obs.harness.push(format!("send_invite: {e}"));
+                        return obs;
+                    }
                 };
-                if code >= 200 {
-                    obs.peer_response = WireMsg::parse(&bytes);
-                }
-                inject(&endpoint, &tp, peer, &bytes);
                 settle().await;
-                match tokio::time::timeout(Duration::from_secs(1), tsx.receive()).await {
-                    Ok(Ok(Some(r))) if r.line.code.into_u16() == code => {
-                        if code >= 200 {
-                            final_resp = Some(r);
+                let Some(invite_wire) = last_invite(&log).filter(|_| count_requests(&log) == before + 1) else {
+                    obs.harness.push("INVITE not on the wire".into());
+                    return obs;
+                };
+                if let Some(a) = att {
+                    // ---- an attempt the peer rejects ----
+                    let mut early_dialog = None;
+                    let mut codes: Vec<u16> = a.provisionals.clone();
+                    codes.push(a.code);
+                    for code in codes {
+                        let tagged = code < 200 && code > 100 && a.early && a.to_tag.is_some();
+                        let bytes = if code >= 200 {
+                            response_text(&invite_wire, code, a.to_tag.as_deref(), &failure_extra(code))
+                        } else if tagged {
+                            response_text(&invite_wire, code, a.to_tag.as_deref(), &early_extra())
+                        } else {
+                            response_text(&invite_wire, code, None, &[])
+                        };
+                        inject(&endpoint, &tp, peer, &bytes);
+                        settle().await;
+                        match tokio::time::timeout(Duration::from_secs(1), tsx.receive()).await {
+                            Ok(Ok(Some(r))) if r.line.code.into_u16() == code => {
+                                // the application keeps an early dialog until the failure arrives
+                                if tagged && early_dialog.is_none() {
+                                    match cb.create_dialog_from_response(&r) {
+                                        Ok(d) => early_dialog = Some(d),
+                                        Err(e) => obs.harness.push(format!("create_dialog_from_response (early, rejected attempt): {e}")),
+                                    }
+                                }
+                            }
+                            other => obs.harness.push(format!(
+                                "peer sent {code} in a rejected attempt, transaction delivered {:?}",
+                                other.map(|r| r.map(|o| o.map(|r| r.line.code.into_u16())).map_err(|e| e.to_string()))
+                            )),
                         }
                     }
-                    other => obs.harness.push(format!(
-                        "peer sent {code}, transaction delivered {:?}",
-                        other.map(|r| r.map(|o| o.map(|r| r.line.code.into_u16())).map_err(|e| e.to_string()))
-                    )),
+                    drop(early_dialog);
+                    keep.push(Box::new(tsx));
+                    prev = Some(a);
+                    continue;
                 }
-            }
-            let Some(resp) = final_resp else {
-                obs.wire = log.parsed();
-                return obs;
-            };
-            let dialog = match cb.create_dialog_from_response(&resp) {
-                Ok(d) => d,
-                Err(e) => {
-                    obs.harness.push(format!("create_dialog_from_response: {e}"));
+
+                // ---- the attempt that creates the dialog ----
+                obs.creating_invite = Some(invite_wire.clone());
+                let mut final_resp = None;
+                let mut codes: Vec<u16> = case.peer_provisionals.clone();
+                codes.push(case.code);
+                for code in codes {
+                    let bytes = if code >= 200 {
+                        response_text(&invite_wire, code, Some(&case.to_tag), &extra)
+                    } else {
+                        response_text(&invite_wire, code, None, &[])
+                    };
+                    if code >= 200 {
+                        obs.peer_response = WireMsg::parse(&bytes);
+                    }
+                    inject(&endpoint, &tp, peer, &bytes);
+                    settle().await;
+                    match tokio::time::timeout(Duration::from_secs(1), tsx.receive()).await {
+                        Ok(Ok(Some(r))) if r.line.code.into_u16() == code => {
+                            if code >= 200 {
+                                final_resp = Some(r);
+                            }
+                        }
+                        other => obs.harness.push(format!(
+                            "peer sent {code}, transaction delivered {:?}",
+                            other.map(|r| r.map(|o| o.map(|r| r.line.code.into_u16())).map_err(|e| e.to_string()))
+                        )),
+                    }
+                }
+                let Some(resp) = final_resp else {
                     obs.wire = log.parsed();
                     return obs;
+                };
+                let dialog = match cb.create_dialog_from_response(&resp) {
+                    Ok(d) => d,
+                    Err(e) => {
+                        obs.harness.push(format!("create_dialog_from_response: {e}"));
+                        obs.wire = log.parsed();
+                        return obs;
+                    }
+                };
+                obs.had_dialog = true;
+                // a second 2xx from another branch: a second dialog out of the same builder and transaction
+                let mut fork_dialog = None;
+                if let Some(bytes) = fork_bytes(&invite_wire) {
+                    obs.fork_response = WireMsg::parse(&bytes);
+                    inject(&endpoint, &tp, peer, &bytes);
+                    settle().await;
+                    match tokio::time::timeout(Duration::from_secs(1), tsx.receive()).await {
+                        Ok(Ok(Some(r2))) if r2.line.code.kind() == sip_types::CodeKind::Success => match cb.create_dialog_from_response(&r2) {
+                            Ok(d) => fork_dialog = Some(d),
+                            Err(e) => obs.harness.push(format!("create_dialog_from_response (second 2xx): {e}")),
+                        },
+                        other => obs.harness.push(format!(
+                            "peer sent a second 2xx, transaction delivered {:?}",
+                            other.map(|r| r.map(|o| o.map(|r| r.line.code.into_u16())).map_err(|e| e.to_string()))
+                        )),
+                    }
                 }
-            };
-            obs.had_dialog = true;
-            let mut resp = resp;
-            obs.created = do_ops(&endpoint, &dialog, &case.ops, Some(&mut resp), &mut keep, &mut obs.harness).await;
-            settle().await;
-            obs.wire = log.parsed();
-            drop(keep);
-            drop(dialog);
-            drop(tsx);
-            return obs;
+                let mut resp = resp;
+                obs.created = do_ops(&endpoint, &dialog, &case.ops, Some(&mut resp), &mut keep, &mut obs.harness).await;
+                settle().await;
+                if let (Some(f), Some(d2)) = (&case.fork, &fork_dialog) {
+                    obs.fork_start = Some(count_requests(&log) - n_invites);
+                    for m in &f.methods {
+                        let req = d2.create_request(method_of(*m));
+                        send_created(&endpoint, d2, req, &mut keep, &mut obs.harness).await;
+                        obs.fork_sent += 1;
+                    }
+                    settle().await;
+                }
+                obs.wire = log.parsed();
+                drop(keep);
+                drop(dialog);
+                drop(fork_dialog);
+                drop(tsx);
+                return obs;
+            }
+            unreachable!("the last attempt returns");
         }
 
         // ---- through the Initiator ----
         let mut ini = Initiator::new(endpoint.clone(), dialog_layer, invite_layer, local_addr, local_contact, target);
-        let invite = ini.create_invite();
+        let mut prev: Option<&Attempt> = None;
+        for a in &case.prior {
+            // ---- an attempt the peer rejects; the application then calls create_invite / send_invite again ----
+            let mut invite = ini.create_invite();
+            if prev.map_or(false, |p| p.edit) {
+                invite.headers.insert(Name::AUTHORIZATION, CREDENTIALS);
+            }
+            let before = count_requests(&log);
+            if let Err(e) = ini.send_invite(invite).await {
+                obs.harness.push(format!("initiator.send_invite: {e}"));
+                return obs;
+            }
+            settle().await;
+            let Some(invite_wire) = last_invite(&log).filter(|_| count_requests(&log) == before + 1) else {
+                obs.harness.push("INVITE not on the wire".into());
+                return obs;
+            };
+            for code in &a.provisionals {
+                if *code > 100 && a.early && a.to_tag.is_some() {
+                    inject(&endpoint, &tp, peer, &response_text(&invite_wire, *code, a.to_tag.as_deref(), &early_extra()));
+                } else {
+                    inject(&endpoint, &tp, peer, &response_text(&invite_wire, *code, None, &[]));
+                }
+                settle().await;
+            }
+            inject(&endpoint, &tp, peer, &response_text(&invite_wire, a.code, a.to_tag.as_deref(), &failure_extra(a.code)));
+            settle().await;
+            // the application holds the early dialogs of this attempt until the failure is delivered
+            let mut earlies = vec![];
+            let mut failed = false;
+            for _ in 0..8 {
+                match tokio::time::timeout(Duration::from_secs(1), ini.receive()).await {
+                    Ok(Ok(IniResponse::Provisional(_))) => continue,
+                    Ok(Ok(IniResponse::Early(e, _, _))) => {
+                        earlies.push(e);
+                        continue;
+                    }
+                    Ok(Ok(IniResponse::Failure(r))) => {
+                        if r.line.code.into_u16() != a.code {
+                            obs.harness.push(format!("peer rejected with {}, initiator delivered {}", a.code, r.line.code.into_u16()));
+                        }
+                        failed = true;
+                        break;
+                    }
+                    Ok(Ok(IniResponse::Session(..))) => {
+                        obs.harness.push("initiator.receive: Session for a rejected attempt".into());
+                        break;
+                    }
+                    Ok(Ok(IniResponse::Finished)) => {
+                        obs.harness.push("initiator.receive: Finished for a rejected attempt".into());
+                        break;
+                    }
+                    Ok(Err(e)) => {
+                        obs.harness.push(format!("initiator.receive (rejected attempt): {e}"));
+                        break;
+                    }
+                    Err(_) => {
+                        obs.harness.push("initiator.receive did not deliver the failure response".into());
+                        break;
+                    }
+                }
+            }
+            drop(earlies);
+            if !failed {
+                obs.wire = log.parsed();
+                return obs;
+            }
+            prev = Some(a);
+        }
+        let mut invite = ini.create_invite();
+        if prev.map_or(false, |p| p.edit) {
+            invite.headers.insert(Name::AUTHORIZATION, CREDENTIALS);
+        }
+        let before = count_requests(&log);
         if let Err(e) = ini.send_invite(invite).await {
             obs.harness.push(format!("initiator.send_invite: {e}"));
             return obs;
         }
         settle().await;
-        let Some(invite_wire) = first_invite(&log) else {
+        let Some(invite_wire) = last_invite(&log).filter(|_| count_requests(&log) == before + 1) else {
             obs.harness.push("INVITE not on the wire".into());
             return obs;
         };
+        obs.creating_invite = Some(invite_wire.clone());
         // half of the cases: the provisional responses above 100 create an EARLY dialog (To-tag, Contact and a
         // Record-Route list that DIFFERS from the 2xx's): the session's dialog state must come from the 2xx
         let early_flow = case.rng % 2 == 0 && case.peer_provisionals.iter().any(|c| *c > 100);
@@ -1087,15 +1451,19 @@ pub fn run_uac(case: &UacCase) -> Observed {
         let dialog: Arc<Dialog> = session.dialog.clone();
         obs.had_dialog = true;
 
-        let count_requests = |log: &WireLog| -> usize {
-            let mut seen = HashSet::new();
-            log.parsed()
-                .into_iter()
-                .filter_map(|(_, m)| m)
-                .filter(|m| m.is_request())
-                .filter(|m| seen.insert(m.via_branch()))
-                .count()
-        };
+        // a second 2xx from another branch: the initiator hands out a second session
+        let mut fork_session = None;
+        if let Some(bytes) = fork_bytes(&invite_wire) {
+            obs.fork_response = WireMsg::parse(&bytes);
+            inject(&endpoint, &tp, peer, &bytes);
+            settle().await;
+            match tokio::time::timeout(Duration::from_secs(1), ini.receive()).await {
+                Ok(Ok(IniResponse::Session(s2, _))) => fork_session = Some(s2),
+                Ok(Ok(_)) => obs.harness.push("initiator.receive: the second 2xx was not delivered as a Session".into()),
+                Ok(Err(e)) => obs.harness.push(format!("initiator.receive (second 2xx): {e}")),
+                Err(_) => obs.harness.push("initiator.receive did not deliver the second 2xx".into()),
+            }
+        }
 
         let mut session = Some(session);
         let refresh_first = matches!(case.refresh, Some((_, true)));
@@ -1105,7 +1473,7 @@ pub fn run_uac(case: &UacCase) -> Observed {
         }
         if let Some((se, _)) = case.refresh {
             let before = count_requests(&log);
-            obs.refresh_after = Some(before - 1);
+            obs.refresh_after = Some(before - n_invites);
             let mut s = session.take().unwrap();
             let h = tokio::spawn(async move {
                 let r = match tokio::time::timeout(Duration::from_secs(se as u64 + 60), s.drive()).await {
@@ -1172,6 +1540,17 @@ pub fn run_uac(case: &UacCase) -> Observed {
             }
         }
         settle().await;
+        if let (Some(f), Some(s2)) = (&case.fork, fork_session) {
+            let d2 = s2.dialog.clone();
+            obs.fork_start = Some(count_requests(&log) - n_invites);
+            for m in &f.methods {
+                let req = d2.create_request(method_of(*m));
+                send_created(&endpoint, &d2, req, &mut keep, &mut obs.harness).await;
+                obs.fork_sent += 1;
+            }
+            settle().await;
+            keep.push(Box::new(s2));
+        }
         obs.wire = log.parsed();
         drop(keep);
         drop(dialog);
@@ -1197,7 +1576,9 @@ fn created_requests(wire: &[(Sent, Option<WireMsg>)]) -> Vec<WireMsg> {
 /// Judge the requests created inside the dialog: `reqs` = created requests on the wire in creation order;
 /// `reqs[ops_start .. ops_start + created.sent]` are the ones of `do_ops` (when they were created on
 /// threads, their CSeq numbers are judged from `created.per_thread`, which also holds the filler requests).
-fn judge_requests(role: Role, dialog: &RefDialog, reqs: &[WireMsg], ops_start: usize, created: &Created, out: &mut CaseOut) {
+/// `earlier` = CSeq numbers of earlier, rejected attempts of the dialog-creating INVITE (UAC; only used to name
+/// a failure, see `CSeqTracker::earlier_attempts`).
+fn judge_requests(role: Role, dialog: &RefDialog, reqs: &[WireMsg], ops_start: usize, created: &Created, earlier: &[u32], out: &mut CaseOut) {
     let r = role.name();
     for m in reqs {
         for (locus, detail) in dialog.check_request(m) {
@@ -1208,6 +1589,7 @@ fn judge_requests(role: Role, dialog: &RefDialog, reqs: &[WireMsg], ops_start: u
     let threaded = !created.per_thread.is_empty();
     let ops_end = ops_start + created.sent;
     let mut tr = CSeqTracker::new(dialog);
+    tr.earlier_attempts = earlier.to_vec();
     let mut last_invite: Option<u32> = None;
     let mut i = 0;
     while i < reqs.len() {
@@ -1223,8 +1605,8 @@ fn judge_requests(role: Role, dialog: &RefDialog, reqs: &[WireMsg], ops_start: u
                         if *n <= p {
                             if before == Some(p) && tr.floor == before {
                                 out.fail(
-                                    format!("c11.cseq/{r}-first-not-above-invite"),
-                                    format!("thread {t}: request with CSeq {n}, the INVITE that created the dialog had {p}"),
+                                    format!("c11.cseq/{r}-{}", tr.floor_locus()),
+                                    format!("thread {t}: request with CSeq {n}, the INVITE that created the dialog had {p} (earlier attempts: {earlier:?})"),
                                 );
                             } else {
                                 out.fail(format!("c11.cseq/{r}-not-increasing"), format!("thread {t}: CSeq {n} follows {p}"));
@@ -1408,7 +1790,7 @@ pub fn check_uas(case: &UasCase, out: &mut CaseOut) {
     if obs.terminate_sent {
         out.class("session-terminate-bye");
     }
-    judge_requests(Role::Uas, &dialog, &reqs, 0, &obs.created, out);
+    judge_requests(Role::Uas, &dialog, &reqs, 0, &obs.created, &[], out);
 
     out.note = Some(format!(
         "local_tag={:?} route_set={:?} target={} | {}",
@@ -1444,14 +1826,71 @@ pub fn check_uac(case: &UacCase, out: &mut CaseOut) {
         out.class("peer-2xx-other-than-200");
     }
 
+    match case.prior.len() {
+        0 => out.class("uac-first-attempt-creates-dialog"),
+        1 => out.class("uac-1-rejected-attempt-before"),
+        2 => out.class("uac-2-rejected-attempts-before"),
+        _ => out.class("uac-3-rejected-attempts-before"),
+    }
+    for a in &case.prior {
+        out.class(match a.code {
+            401 | 407 => "rejected-with-401/407",
+            422 => "rejected-with-422",
+            300..=399 => "rejected-with-3xx",
+            _ => "rejected-with-other-failure",
+        });
+        if a.early && a.to_tag.is_some() && a.provisionals.iter().any(|c| *c > 100) {
+            out.class("rejected-attempt-had-early-dialog");
+        }
+        if a.to_tag.is_none() {
+            out.class("rejection-without-to-tag");
+        }
+        if a.same_tag {
+            out.class("rejection-and-2xx-share-to-tag");
+        }
+        if a.edit {
+            out.class("repeated-invite-edited-by-app");
+        }
+        if a.bump > 0 {
+            out.class("builder-cseq-raised-by-app");
+        }
+    }
+    if case.fork.is_some() {
+        out.class("fork-second-2xx");
+    }
+
     for h in &obs.harness {
         out.fail("c11.harness/uac", h.clone());
     }
     let all_reqs = created_requests(&obs.wire);
-    let Some(invite) = all_reqs.first().filter(|m| m.method() == Some("INVITE")).cloned() else {
-        out.fail("c11.harness/uac-no-invite", "no INVITE on the wire");
+    // the INVITE attempts come first (the ACK for a rejection shares its INVITE's branch: not a created request);
+    // the dialog is created by the LAST of them, the one the peer answered with the 2xx
+    let Some(invite) = obs.creating_invite.clone() else {
+        if obs.harness.is_empty() {
+            out.fail("c11.harness/uac-no-invite", "the dialog-creating INVITE did not go out");
+        }
         return;
     };
+    let n_invites = case.prior.len() + 1;
+    let attempts_ok = all_reqs.len() >= n_invites
+        && all_reqs[..n_invites].iter().all(|m| m.method() == Some("INVITE"))
+        && all_reqs[n_invites - 1].via_branch() == invite.via_branch();
+    if !attempts_ok {
+        out.fail(
+            "c11.harness/uac-attempts",
+            format!("expected {n_invites} INVITE attempts first, wire has {:?}", all_reqs.iter().map(|m| m.start.clone()).collect::<Vec<_>>()),
+        );
+        return;
+    }
+    // CSeq numbers of the rejected attempts (nothing is asserted about them, they only name a failure)
+    let earlier: Vec<u32> = all_reqs[..n_invites - 1].iter().filter_map(|m| m.cseq().map(|c| c.0)).collect();
+    if let Some(c) = invite.cseq().map(|c| c.0) {
+        if earlier.iter().any(|e| *e != c) {
+            out.class("repeated-invite-has-new-cseq");
+        } else if !earlier.is_empty() {
+            out.class("repeated-invite-keeps-cseq");
+        }
+    }
     let Some(response) = obs.peer_response.clone() else {
         out.fail("c11.harness/uac-no-response", "peer response not built");
         return;
@@ -1466,17 +1905,24 @@ pub fn check_uac(case: &UacCase, out: &mut CaseOut) {
             return;
         }
     };
-    let reqs: Vec<WireMsg> = all_reqs[1..].to_vec();
+    let after_invites: Vec<WireMsg> = all_reqs[n_invites..].to_vec();
+    // the requests of the second dialog of a forked INVITE come last
+    let (reqs, fork_reqs): (Vec<WireMsg>, Vec<WireMsg>) = match obs.fork_start {
+        Some(at) if at <= after_invites.len() => (after_invites[..at].to_vec(), after_invites[at..].to_vec()),
+        _ => (after_invites, vec![]),
+    };
     let refresh_n = if obs.refresh_after.is_some() { 2 } else { 0 };
     let want_n: usize = obs.created.sent + obs.terminate_sent as usize + refresh_n;
-    if reqs.len() != want_n && obs.harness.is_empty() {
+    if (reqs.len() != want_n || fork_reqs.len() != obs.fork_sent) && obs.harness.is_empty() {
         out.fail(
             "c11.harness/uac-request-count",
             format!(
-                "{} requests after the INVITE on the wire, expected {} ({:?})",
+                "{} + {} requests after the INVITE on the wire, expected {} + {} ({:?})",
                 reqs.len(),
+                fork_reqs.len(),
                 want_n,
-                reqs.iter().map(|m| m.start.clone()).collect::<Vec<_>>()
+                obs.fork_sent,
+                reqs.iter().chain(fork_reqs.iter()).map(|m| m.start.clone()).collect::<Vec<_>>()
             ),
         );
     }
@@ -1508,14 +1954,45 @@ pub fn check_uac(case: &UacCase, out: &mut CaseOut) {
         (Some(0), Some((_, true))) => 2,
         _ => 0,
     };
-    judge_requests(Role::Uac, &dialog, &reqs, ops_start, &obs.created, out);
+    judge_requests(Role::Uac, &dialog, &reqs, ops_start, &obs.created, &earlier, out);
+
+    // ---- the second dialog of a forked INVITE: same request, its own 2xx ----
+    if let (Some(f), Some(fork_response)) = (&case.fork, &obs.fork_response) {
+        if obs.fork_start.is_some() {
+            common_classes(&f.rr, 0, &f.peer_contact, &Ops { methods: f.methods.clone(), threads: false, terminate: false }, out);
+            match RefDialog::from_wire(Role::Uac, &invite, fork_response) {
+                Ok(d2) => {
+                    let mut sub = CaseOut {
+                        failures: vec![],
+                        classes: vec![],
+                        nontrivial: None,
+                        note: None,
+                    };
+                    let created2 = Created {
+                        sent: fork_reqs.len(),
+                        per_thread: vec![],
+                    };
+                    judge_requests(Role::Uac, &d2, &fork_reqs, 0, &created2, &earlier, &mut sub);
+                    // one root cause, one signature: what already failed in the first dialog is not repeated
+                    for f in sub.failures {
+                        if !out.failures.iter().any(|o| o.sig == f.sig) {
+                            out.fail(f.sig.replacen("/uac-", "/uac-fork-", 1), format!("second dialog of the forked INVITE: {}", f.msg));
+                        }
+                    }
+                }
+                Err(e) => out.fail("c11.harness/ref-dialog", format!("second 2xx: {e}")),
+            }
+        }
+    }
 
     out.note = Some(format!(
-        "invite_cseq={:?} route_set={:?} target={} | {}",
+        "attempts_cseq={:?} invite_cseq={:?} route_set={:?} target={} | {}",
+        earlier,
         dialog.local_seq,
         dialog.route_set,
         dialog.remote_target,
         reqs.iter()
+            .chain(fork_reqs.iter())
             .map(|m| format!("{} [CSeq {}]", m.start, m.header("cseq").unwrap_or("?")))
             .collect::<Vec<_>>()
             .join(" | ")
@@ -1530,7 +2007,7 @@ pub fn property() -> Property {
     Property {
         fuzz: vec![],
         id: "C11",
-        rule: "cases = dialog-creating INVITE/2xx pairs (0..4 Record-Route values with distinct URIs, lr/other/header parameters, one or several header lines; random tags; Contact with URI and header parameters, display names, addr-spec form; From/To with display names) in both roles - UAS: peer INVITE injected, Dialog::new_server (directly with ServerInvTsx, or through Acceptor/Session), responses for provisional/2xx/failure codes through create_response; UAC: ClientDialogBuilder + send_invite, or Initiator/Session, peer answers 2xx - followed by 1..10 create_request calls over BYE/INFO/INVITE/PRACK/UPDATE/MESSAGE (optionally from 4 OS threads), Session::terminate, and the session-refresh re-INVITE + ACK. Non-trivial = at least 2 Record-Route entries, or UAC role with a request after the INVITE, or a provisional (>100)/failure response; distinct by hash of the case.",
+        rule: "cases = dialog-creating INVITE/2xx pairs (0..4 Record-Route values with distinct URIs, lr/other/header parameters, one or several header lines; random tags; Contact with URI and header parameters, display names, addr-spec form; From/To with display names) in both roles - UAS: peer INVITE injected, Dialog::new_server (directly with ServerInvTsx, or through Acceptor/Session), responses for provisional/2xx/failure codes through create_response; UAC: ClientDialogBuilder + send_invite, or Initiator/Session, 0..3 earlier attempts of the INVITE through the same builder that the peer rejects (401/407/422/3xx/other failures, with/without To-tag, optionally after an early dialog; the repeated INVITE optionally edited, its CSeq optionally raised through ClientDialogBuilder.local_cseq), then the peer answers 2xx, optionally a second 2xx from another fork branch (second dialog, 1..3 requests of its own) - followed by 1..10 create_request calls over BYE/INFO/INVITE/PRACK/UPDATE/MESSAGE (optionally from 4 OS threads), Session::terminate, and the session-refresh re-INVITE + ACK. Non-trivial = at least 2 Record-Route entries, or UAC role with a request after the INVITE, or a provisional (>100)/failure response; distinct by hash of the case.",
         assumptions: vec![
             "requests and responses are read from the mock wire with the independent reader; the dialog is rebuilt by refmodel::ref_dialog from the texts only",
             "ezk's random tags / Call-ID / CSeq base are read back (wire, Dialog.local_fromto.tag), never predicted",
@@ -1540,6 +2017,8 @@ pub fn property() -> Property {
             "the ACK for the 2xx of the dialog-creating INVITE is never produced by ezk's public API (create_ack is private and only used by RefreshNeeded::process_default): the ACK rule is checked on the session-refresh re-INVITE of a UAC-side Session",
             "OS threads are used only for Dialog::create_request (atomic CSeq counter); everything else runs on the single-threaded simulation",
             "generated tags are tokens without '%': ezk percent-decodes header parameters, so a remote tag a%41b comes back as aAb (open finding, signature c11.req/<role>-to-tag-percent-decoded, replays in the builder's findings directory); excluded by construction",
+            "UAC: the dialog-creating INVITE is the one whose Via branch / CSeq the peer's 2xx echoes (the last attempt), its number is read from the wire; the numbers of rejected attempts are not judged; the ACKs for rejections share their INVITE's branch and are not counted as created requests",
+            "a forked INVITE's two dialogs are judged independently (each: CSeq above the INVITE's and increasing); the second 2xx arrives right after the first, inside the 64*T1 window of the client transaction",
             "the peer's CSeq is below 2^31 (RFC 3261 8.1.1.5); Record-Route URIs carry no ttl parameter (ezk's Route printer omits it per Table 1)",
         ],
         explanation: "sub uas-codes enumerates every status code 100..=699 through Dialog::create_response / Acceptor::create_response with 0 and 2 Record-Route entries (exhaustive for that sub-space); subs uas and uac sample dialog shapes, request sequences and flows",
